@@ -309,6 +309,11 @@ class AsmGen:
                 elif kind == 'L': emit('ARR_LITERAL 7 %d' % n); st.append('a')
                 else: emit('CLOSURE_NEW 1 %d' % n); st.append(('c', n))
                 self.feat['construct:' + kind] += 1
+                if kind == 'S' and n > 0 and r.random() < 0.5:
+                    push_any(); st.pop(); emit('STRUCT_SET %d' % r.randrange(n)); self.feat['struct_set'] += 1
+                if kind == 'C' and can_call and self.leaky and r.random() < 0.7:
+                    emit('DUP'); emit('PUSH_I64 1'); emit('SWAP'); emit(r.choice(['CALL_INDIRECT', 'CLOSURE_CALL'])); st.append('?')
+                    self.feat['closure_call'] += 1
             elif k < 87 and isinstance(top, tuple) and top[0] in 'STU' and top[1] > 0:
                 j = r.randrange(top[1]); st.pop(); st.append('?')
                 emit({'S': 'STRUCT_GET', 'T': 'TUPLE_GET', 'U': 'UNION_FIELD'}[top[0]] + ' %d' % j); self.feat['field_get'] += 1
@@ -607,13 +612,13 @@ def run(ck):
     for p in sorted(glob.glob(os.path.join(CORPUS, '*.nano')) + glob.glob(os.path.join(CORPUS, '*.asm'))):
         progs.append(('corpus_' + os.path.splitext(os.path.basename(p))[0], open(p).read(), 'corpus'))
     # 2. generated, aliasing-biased; two thirds without the constructs that are known to leak
-    n = 900 if ck.thorough else 150
+    n = 1200 if ck.thorough else 300
     feats = collections.Counter()
     for i in range(n):
         g = Gen(ck.rng, leaky=(i % 3 == 2))
         progs.append(('gen%04d' % i, g.program(), 'gen-leaky' if g.leaky else 'gen'))
         feats.update(g.feat)
-    na = 600 if ck.thorough else 120
+    na = 1000 if ck.thorough else 200
     for i in range(na):
         g = AsmGen(ck.rng, leaky=(i % 3 == 2))
         progs.append(('asm%04d' % i, g.program(), 'asm-leaky' if g.leaky else 'asm'))
@@ -639,6 +644,11 @@ def run(ck):
         if 'program' in inp:
             res = R.one('known_' + re.sub(r'\W', '_', kf['key']), inp['program'], max_steps=200000)
             judge(ck, R, res, inp['program'], 'known')
+    if ck.thorough and proved:
+        rc, o, e = vlib.sh(['coqchk', '-silent', '-o', '-Q', 'NV', 'NV', 'NV.Props.Properties_C14'], cwd=vlib.COQ, timeout=1500)
+        ck.extra['coqchk'] = 'ok' if rc == 0 else 'FAILED rc=%s %s' % (rc, (o + e)[-400:])
+        if rc != 0:
+            ck.proof['broken'].append('coqchk NV.Props.Properties_C14')
     ck.cov['rule'] = ('generated nano programs (helpers returning arguments through 3 frames, struct-in-struct, union+match, tuples, '
                       'globals, string pool of 8 literals so equal strings are interned repeatedly, same array bound to several '
                       'locals / pushed twice / stored in structs, values dropped in while loops) compiled by nano_virt --emit-nvm and run '
